@@ -12,7 +12,9 @@ extra = {'C13-B': ['C13', 'C16'], 'C05-B': ['C17'], 'C17-B': ['C17'], 'C02-A': [
          # round 5: the eight "grace period measured with the wall clock" variants break their nominal property only
          # by never finishing the operation; the owners of that are C02 / C03 / C05
          'C01-H': ['C01', 'C03', 'C05'], 'C10-H': ['C10', 'C05'], 'C15-H': ['C15', 'C02'], 'C14-H': ['C14', 'C03'],
-         'C08-H': ['C08', 'C02'], 'C18-G': ['C18', 'C15'], 'C04-H': ['C04', 'C13']}
+         'C08-H': ['C08', 'C02'], 'C18-G': ['C18', 'C15'], 'C04-H': ['C04', 'C13'],
+         # round 6: C01-J is the mechanism of C04-G (a reaped worker kept on the books), C03-J never finishes a stop
+         'C01-J': ['C01', 'C04'], 'C03-J': ['C03', 'C05']}
 rows = []
 import concurrent.futures as cf
 
